@@ -30,6 +30,7 @@ def run(ctx):
     shared.index_hit_verified_against_key(ctx, '7')   # a planned write lands on the key it names
     # the latest value of a key may still live only in an older, queued index table: reader and planner search them all
     from props import C09
+    C09.one_generation_searched_only_by_helpers(ctx, '4')
     C09.both_index_search(ctx, '4r', 'column::HashColumn::get', ['column::HashColumn::get_in_index'], 0, '.Tables.index')
     shared.index_insert_retried(ctx, '4i')
     C09.both_index_search(ctx, '4w', 'column::HashColumn::search_all_indexes', ['column::HashColumn::search_index'], 0, '.Tables.index')
